@@ -66,10 +66,11 @@ class Crate:
             e["RUSTFLAGS"] = flags
         return e
 
-    def base_cmd(self):
-        c = "cargo kani --target-dir %s --lib" % self.target_dir
+    def base_cmd(self, slot=None):
+        td = self.target_dir if slot is None else "%s_w%d" % (self.target_dir, slot)
+        c = "cargo kani --target-dir %s --lib" % td
         if self.incrate:
-            c = "cargo kani -p %s --target-dir %s --lib" % (self.package, self.target_dir)
+            c = "cargo kani -p %s --target-dir %s --lib" % (self.package, td)
         if self.features is not None:
             c += " --no-default-features"
             if self.features:
@@ -83,22 +84,28 @@ class Crate:
             shutil.copyfile(os.path.join(REPO, "Cargo.lock"), os.path.join(self.path, "Cargo.lock"))
 
     def build(self, log):
-        """compile once (codegen for every harness); returns (ok, output)"""
+        """type-check the harness crate against /repo's working tree (native `cargo check` of the
+        same sources; Kani itself compiles per harness, because the harness filter is part of
+        the compiler invocation). returns (ok, output, secs)"""
         self.prepare()
-        rc, out, secs, to = sh(self.base_cmd() + " --only-codegen", cwd=self.path,
-                               env=self.kani_env(), timeout=3600)
-        log("build %s: rc=%s %.0fs" % (self.name, rc, secs))
+        if self.incrate:
+            cmd = "cargo check --offline -p %s --lib --tests --target-dir %s" % (
+                self.package, os.path.join(BUILD, "check_" + self.name))
+        else:
+            cmd = "cargo check --offline --lib --target-dir %s" % os.path.join(BUILD, "check_" + self.name)
+        rc, out, secs, to = sh(cmd, cwd=self.path, env=self.kani_env(), timeout=3600)
+        log("typecheck %s: rc=%s %.0fs" % (self.name, rc, secs))
         return rc == 0, out, secs
 
 
-def run_harness(crate, harness, timeout_s, mem_gb, outdir, playback=False, unwind=None):
+def run_harness(crate, harness, timeout_s, mem_gb, outdir, playback=False, slot=None):
     os.makedirs(outdir, exist_ok=True)
     tag = hashlib.sha1(harness.encode()).hexdigest()[:10]
     jpath = os.path.join(outdir, "%s_%s.json" % (harness.replace("::", "__")[-80:], tag))
     if os.path.exists(jpath):
         os.remove(jpath)
     cmd = "%s --harness '%s' --exact -Z unstable-options --export-json %s" % (
-        crate.base_cmd(), harness, jpath)
+        crate.base_cmd(slot), harness, jpath)
     if playback:
         cmd += " -Z concrete-playback --concrete-playback=print"
     rc, out, secs, to = sh(cmd, cwd=crate.path, env=crate.kani_env(), timeout=timeout_s,
@@ -163,9 +170,21 @@ def parse_playback(out):
 
 def run_many(jobs, workers, log):
     """jobs: list of (crate, harness, timeout_s, mem_gb, outdir). Returns results in order."""
+    import queue
     results = [None] * len(jobs)
+    slots = queue.Queue()
+    for i in range(workers):
+        slots.put(i)
+
+    def one(j):
+        s = slots.get()
+        try:
+            return run_harness(*j, slot=s)
+        finally:
+            slots.put(s)
+
     with cf.ThreadPoolExecutor(max_workers=workers) as ex:
-        futs = {ex.submit(run_harness, *j): i for i, j in enumerate(jobs)}
+        futs = {ex.submit(one, j): i for i, j in enumerate(jobs)}
         done = 0
         for f in cf.as_completed(futs):
             i = futs[f]
